@@ -10,6 +10,23 @@ From SV Require Import Base.Prelude Model.Retry Model.Fiber.
 From SV Require Import Proofs.Retry_proofs Proofs.Fiber_proofs Proofs.C06_proofs.
 Open Scope Z_scope.
 
+(* The error sets of the property text: "a failure that proves the previous attempt was not
+   applied (unavailable, bootstrapping, no free stream id on the client, read timeout)" and
+   "a broken connection, an overloaded/server/truncate error or a write timeout". *)
+Theorem C06_safe_set : forall e,
+  safe_errorb e = true <->
+  (e = EUnableToAllocStreamId \/ e = EDbError DbIsBootstrapping
+   \/ (exists required alive, e = EDbError (DbUnavailable required alive))
+   \/ (exists received required dp, e = EDbError (DbReadTimeout received required dp))).
+Proof. exact safe_set. Qed.
+
+Theorem C06_named_unsafe_set : forall e,
+  named_unsafe_errorb e = true <->
+  (e = EBrokenConnectionError \/ e = EDbError DbOverloaded \/ e = EDbError DbServerError
+   \/ e = EDbError DbTruncateError
+   \/ (exists received required wt, e = EDbError (DbWriteTimeout received required wt))).
+Proof. exact named_unsafe_set. Qed.
+
 (* A request not marked idempotent: whenever anything follows a failed attempt (in
    particular: whenever the request is sent again), that attempt failed with one of the
    errors that prove it was not applied: unavailable, bootstrapping, no free stream id,
@@ -158,18 +175,34 @@ Proof. exact fiber_one_change. Qed.
      responding -- hence, when the error is coherent (known_ok < required, required >= 1),
      for fewer replicas than the failed attempt required; the one exception is the
      EACH_QUORUM rule (known_ok <= 0 at EACH_QUORUM gives ONE; equal only if required = 1).
-   [downgrade_ok] is defined in Proofs/C06_proofs.v and unfolded in the pin. *)
+   (The body is [downgrade_ok] of Proofs/C06_proofs.v, written out.) *)
 Theorem C06_downgrade_sound : forall idem cl0 plan outs tr r,
   fiber PDowngrading idem cl0 plan outs = (tr, r) ->
   forall pre t c e d post c' l, tr = pre ++ EvAttempt t c (AErr e d) :: post ->
   attempt_cls post = c' :: l -> c' <> c ->
-  downgrade_ok c idem e d c'.
+  is_serial c = false /\ d = RetrySameTarget (Some c') /\
+  exists known_ok required,
+    (e = EDbError (DbUnavailable required known_ok)
+     \/ (exists dp, e = EDbError (DbReadTimeout known_ok required dp) /\ known_ok < required)
+     \/ (e = EDbError (DbWriteTimeout known_ok required WUnloggedBatch) /\ idem = true))
+    /\ exists n, cl_count c' = Some n
+         /\ (n <= known_ok \/ (c = CEachQuorum /\ c' = COne /\ known_ok <= 0))
+         /\ (known_ok < required -> 1 <= required -> n <= required
+             /\ (n < required \/ (c = CEachQuorum /\ c' = COne /\ required = 1))).
 Proof. exact fiber_downgrade_sound. Qed.
 
 Theorem C06_downgrade_decision : forall w ri s' d c',
   decide (SDowngrading w) ri = (s', d) -> carried d = Some c' ->
   w = false /\ s' = SDowngrading true /\
-  downgrade_ok (ri_consistency ri) (ri_idempotent ri) (ri_error ri) d c'.
+  is_serial (ri_consistency ri) = false /\ d = RetrySameTarget (Some c') /\
+  exists known_ok required,
+    (ri_error ri = EDbError (DbUnavailable required known_ok)
+     \/ (exists dp, ri_error ri = EDbError (DbReadTimeout known_ok required dp) /\ known_ok < required)
+     \/ (ri_error ri = EDbError (DbWriteTimeout known_ok required WUnloggedBatch) /\ ri_idempotent ri = true))
+    /\ exists n, cl_count c' = Some n
+         /\ (n <= known_ok \/ (ri_consistency ri = CEachQuorum /\ c' = COne /\ known_ok <= 0))
+         /\ (known_ok < required -> 1 <= required -> n <= required
+             /\ (n < required \/ (ri_consistency ri = CEachQuorum /\ c' = COne /\ required = 1))).
 Proof. exact decide_downgrade_ok. Qed.
 (* The planned wording "never raises the consistency" is NOT a theorem for arbitrary error
    fields: an incoherent error (alive >= required) can carry a consistency that is higher in
@@ -255,6 +288,8 @@ Example C06_ex_ignore :
      RIgnoredWriteError 1%N).
 Proof. vm_compute. reflexivity. Qed.
 
+Print Assumptions C06_safe_set.
+Print Assumptions C06_named_unsafe_set.
 Print Assumptions C06_safe_resend.
 Print Assumptions C06_unsafe_error_final.
 Print Assumptions C06_decide_safe.
